@@ -5,9 +5,9 @@ ids="$*"; [ -z "$ids" ] && ids="C01 C02 C03 C04 C05 C06 C07 C08 C09 C10 C11 C12 
 cd "${VERIF_REPO:-/repo}" || exit 2
 [ -n "$(git status --porcelain --untracked-files=no)" ] && { echo "repo dirty" >&2; exit 2; }
 git apply "$patch" || { echo "patch does not apply" >&2; exit 2; }
-trap 'git -C "${VERIF_REPO:-/repo}" checkout -- . ; git -C "${VERIF_REPO:-/repo}" clean -fdq src; find ${VERIF_ROOT:-/verif}/replays -name "found-*" -newer /tmp/.seeded_stamp -delete 2>/dev/null' EXIT
-touch /tmp/.seeded_stamp
-export TACHECK_EVIDENCE_DIR=/tmp/seeded-evidence; mkdir -p $TACHECK_EVIDENCE_DIR
+trap 'git -C "${VERIF_REPO:-/repo}" checkout -- . ; git -C "${VERIF_REPO:-/repo}" clean -fdq src; find ${VERIF_ROOT:-/verif}/replays -name "found-*" -newer /tmp/.seeded_stamp.$$ -delete 2>/dev/null' EXIT
+touch /tmp/.seeded_stamp.$$
+export TACHECK_EVIDENCE_DIR=${TACHECK_EVIDENCE_DIR:-/tmp/seeded-evidence}; mkdir -p $TACHECK_EVIDENCE_DIR
 caught=""
 for id in $ids; do
   out=$(cd "${VERIF_ROOT:-/verif}" && ./check "$id" --no-regress 2>&1); c=$?
